@@ -13,7 +13,7 @@ THOROUGH = [("pipe_thorough", 12000), ("pt_thorough", 10000), ("pipe_ref_thoroug
             ("pipe_quick", 8000), ("pt_quick", 6000)]
 
 FORMULAS = {
-    "C01": ["NoLeak", "AtMostOne", "NameStable", "Quiescent", "Tie", "RefKept"],
+    "C01": ["NoLeak", "AtMostOne", "NameStable", "Quiescent", "Tie", "RefKept", "Refs.Stable", "Refs.Complete"],
     "C04": ["Observed.Complete"],
     "C03": ["FailSafe.Writes", "FailSafe.Refs", "NeverDeleteDesired", "NeverDeleteDesired.Made", "GcExact.Missed", "GcExact.Extra"],
     "C02": ["ForeignUntouched"],
@@ -71,6 +71,12 @@ def run(ctx, pid):
         emitted += mc["emitted"]
         consts[cfg] = dict(states=mc["states"], transitions=mc["transitions"], depth=mc["depth"], scenarios=mc["emitted"])
     chosen = regression(pid) + scs
+    if pid == "C01":
+        # input vectors for UpdateResourceRefs (spec/MCRefOrder.tla): every set of 2 or 3 resources over 2 groups x 2 kinds x 2 names
+        mc = ctx.model_check("MCRefOrder", "MCRefOrder.cfg", sub="mc_reforder", workers=1, timeout=120)
+        with open(mc["emitted_file"]) as f:
+            chosen += [{"id": "%s-refs-%04d" % (pid, i), "hist": json.loads(line)} for i, line in enumerate(f, 1)]
+        consts["MCRefOrder.cfg"] = dict(states=mc["states"], vectors=mc["emitted"])
     s, nlines = drive_and_judge(ctx, pid, chosen, sweep=2 if ctx.quick else 12, variants="rotate" if ctx.quick else "all",
                                 shards=6 if ctx.quick else 14)
     if pid == "C03":
